@@ -45,6 +45,8 @@ func checkC10(c *Ctx) {
 	c.Floor("C10.R3", 5)
 	c.Floor("C10.R4", 8)
 	c10proj(c)
+	c08pipeModel(c, "", "", "C10.R1")
+	c10members(c, "C10.R1")
 }
 
 func isTransformerType(t types.Type) bool {
